@@ -26,6 +26,9 @@ Oracle (the property's own statement, independent of the model):
 The oracle compares values, exceptions and the id() graph of the mutable objects (dict, list, deque, bytearray, set and
 their subclasses, the user objects of this module, through tuples / frozensets / items / attributes); it does not
 compare private attributes of the elements, nor the classes of objects (values are rendered by content).
+The harness drives lena through its public interface only (Split(...).run / fill / compute / request, Zip(...).fill,
+the public sequence classes); the one private name it reads, defensively, is the list in which a Zip keeps the
+sequences it made of plain tuples (_zip_seqs; see ASSUMPTIONS).
 
 Kinds of objects (adversary round): data and contexts are not only dict / list / tuple / scalars.  A case names, as
 {"o": [kind, content]}, user objects with mutable attributes (instance dictionary or slots; hashable by identity),
@@ -170,6 +173,14 @@ ASSUMPTIONS = [
     "outside the statement: every branch still computes what it computes alone and no branch sees another's mutation "
     "in an alias-free flow; that the caller's values stay untouched is promised for no last branch (Split works on the "
     "originals there by design). It is reported as a correspondence disagreement, no-failing-input-found (intended)",
+    "Zip cases: the values of the single branches are observed on the sequence objects that Zip fills (Zip.compute() "
+    "itself stops at the shortest branch and merges the contexts). Explicit sequence objects are the harness's own; for "
+    "branches given as plain tuples the sequences are Zip's, kept in a private list without a public accessor: it is read "
+    "defensively (getattr), and when it is missing or does not look as expected the harness makes the sequences itself "
+    "with the public constructors (FillComputeSeq(*els), FillRequestSeq(*els, bufsize=1, reset=False, buffer_input=True)) "
+    "and gives those to Zip; the case is then labelled zip:tuple-branches:rebuilt in the coverage (Zip's own conversion "
+    "of tuples, which is not the subject of C04, is not exercised for it), never an alarm. The branch alone (oracle) is "
+    "always made with the public constructors",
     "split_hist_fresh / acc_yield_fresh: the values filled exist when they are filled (hypotheses FilledOld / hin) — true "
     "of every Python program; downstream_updates_harmless: the updates are confined to objects of values yielded earlier, "
     "and no earlier result is filled again (refilling an updated result legitimately changes what follows)",
@@ -179,7 +190,7 @@ RULE = ("split cases: 0-4 branches of the four kinds (given as explicit sequence
         "data and of dict data, a user Run element that yields at the end of every run), terminal Sum/Count/Mean (with and "
         "without pass_on_empty: the latter raises when never filled)/StoreFilled/user elements, flows of 0-7 values (bare, "
         "with nested contexts incl. tuples of dicts and lists of dicts, with list or dict data), bufsize in "
-        "{1,2,3,len,len+1,1000,None}, driven by run, by fill+compute/request and through Zip._fill; Split built with and "
+        "{1,2,3,len,len+1,1000,None}, driven by run, by fill+compute/request and through Zip(...).fill; Split built with and "
         "without the copy_buf keyword (default); copy_buf=False and aliased flows for the correspondence only; every branch "
         "starts with a probe that records whether it was handed the caller's objects. Objects: data and contexts are "
         "dict / list / tuple / scalars and, named by class in the case, user objects with mutable attributes (instance "
@@ -958,8 +969,42 @@ def _make_split(case, branches):
     return lena.core.Split(branches, bufsize=case["bufsize"], copy_buf=case["copy_buf"])
 
 
-def _drive(case, branches, flow, log):
-    """run the Split/Zip of the case on `flow`; returns (outs, stopped)"""
+def _explicit_seq(br, kind):
+    """a branch given as a plain tuple of elements, as the explicit sequence object of build_branch (public constructors)"""
+    import lena.core
+    if not isinstance(br, tuple):
+        return br
+    if kind == "fc":
+        return lena.core.FillComputeSeq(*br)
+    if kind == "fr":
+        return lena.core.FillRequestSeq(*br, bufsize=1, reset=False, buffer_input=True)
+    raise ValueError(kind)
+
+
+def _zip_seqs(z, branches):
+    """the sequence objects a Zip fills, one per branch (the values every single branch yields are what the property
+    speaks about; Zip's own compute() stops at the shortest branch and merges the contexts).  A branch given as an
+    explicit sequence object is used by Zip as it is: the harness holds it.  Only a plain tuple is converted by Zip
+    into a sequence of its own, kept in a private list for which there is no public accessor: it is read
+    defensively, and None is returned when it is not there or does not look as expected (never an alarm)."""
+    if not any(isinstance(b, tuple) for b in branches):
+        return list(branches)
+    seqs = getattr(z, "_sequences", None)
+    if not isinstance(seqs, list) or len(seqs) != len(branches):
+        return None
+    for b, s in zip(branches, seqs):
+        if isinstance(b, tuple):
+            if not (callable(getattr(s, "fill", None))
+                    and (callable(getattr(s, "compute", None)) or callable(getattr(s, "request", None)))):
+                return None
+        elif s is not b:
+            return None
+    return list(seqs)
+
+
+def _drive(case, branches, flow, log, note):
+    """run the Split/Zip of the case on `flow`; returns (outs, stopped); remarks on how the run was observed go
+    into the dictionary `note`"""
     import lena.core
     import lena.flow
     mode = case["mode"]
@@ -979,14 +1024,23 @@ def _drive(case, branches, flow, log):
         return list(gen), stopped
     if mode == "zip":
         z = lena.flow.Zip(branches)
+        seqs = _zip_seqs(z, branches)
+        if seqs is None:
+            # the sequences Zip made of the plain tuples cannot be observed: the harness makes them itself (public
+            # constructors, the arguments of build_branch for an explicit sequence) and gives them to a new Zip
+            seqs = [_explicit_seq(b, sp["kind"]) for b, sp in zip(branches, case["branches"])]
+            z = lena.flow.Zip(seqs)
+            note["zip_seqs"] = "rebuilt"
+        elif any(isinstance(b, tuple) for b in branches):
+            note["zip_seqs"] = "of-zip"
         for v in flow:
             try:
-                z._fill(v)
+                z.fill(v)
             except lena.core.LenaStopFill:
                 stopped = True
                 break
         outs = []
-        for seq in z._sequences:
+        for seq in seqs:
             outs.extend(seq.compute() if hasattr(z, "compute") else seq.request())
         return outs, stopped
     raise ValueError(mode)
@@ -999,14 +1053,14 @@ def _alone(case, i, nvals):
     flow = [build_item(heap, it) for it in case["flow"]][:nvals]
     flow = copy.deepcopy(flow)
     log = []
-    br = build_branch(i, case["branches"][i], log)
+    sp = case["branches"][i]
+    br = build_branch(i, sp, log)
     mode = case["mode"]
     if mode == "run":
         outs = list(_make_split(case, [br]).run(iter(flow)))
     else:
-        if isinstance(br, tuple):
-            import lena.core.split
-            br = lena.core.split._get_seq_with_type(br, case["bufsize"])[0]
+        # a plain tuple of elements: the sequence it stands for, made with the public constructors
+        br = _explicit_seq(br, sp["kind"])
         for v in flow:
             try:
                 br.fill(v)
@@ -1027,9 +1081,10 @@ def run_split(case):
             if is_root(x):
                 orig_ids.add(id(x))
     fills = [[] for _ in case["branches"]]
+    note = {}
     try:
         branches = [build_branch(i, sp, log, Probe(i, fills, orig_ids)) for i, sp in enumerate(case["branches"])]
-        outs, stopped = _drive(case, branches, flow, log)
+        outs, stopped = _drive(case, branches, flow, log, note)
     except Exception as e:
         return {"e": exc_name(e), "msg": str(e)[:200]}
     if not case["branches"]:
@@ -1039,6 +1094,7 @@ def run_split(case):
     r = Renderer()
     res = {"flow": [r.item(v) for v in flow], "outs": [r.item(v) for v in outs], "stopped": stopped,
            "nested_shared": nested_sharing(flow + outs)}
+    res.update(note)
     # ---- ingredients of the oracle
     nb = len(case["branches"])
     per_yield = [[] for _ in range(nb)]
@@ -1874,6 +1930,10 @@ def classify(case, res):
         labels += sorted("object:" + k for k in kinds_in(case["heap"]))
         if "e" in res:
             labels.append("split:raised:" + res["e"])
+        if res.get("zip_seqs"):
+            # Zip given plain tuples: its own sequences observed ("of-zip", a private list read defensively) or, when
+            # that list is not to be had, sequences made by the harness given to Zip ("rebuilt")
+            labels.append("zip:tuple-branches:" + res["zip_seqs"])
         return labels
     labels = ["acc:" + jshort(case["acc"])] + sorted("object:" + k for k in kinds_in(case["heap"]))
     for e in res.get("evs", []):
